@@ -180,7 +180,7 @@ Proof.
   rewrite He. rewrite cscal_mul.
   generalize (geom th (S n)). set (G := csumn' (S n) (mq th)). set (m := mq th (S n)). set (q := cexp' th).
   set (two := cofr RO 2). intros Hg.
-  transitivity (csub' (csub' (cadd' 1c q) (cmul' two (csub' (cmul' (cadd' 1c q) G) (cadd' 1c q)))) (cmul' (cadd' 1c q) m) ).
+  transitivity (csub' (csub' (cneg' (cadd' 1c q)) (cmul' two (csub' (cmul' (cadd' 1c q) G) (cadd' 1c q)))) (cmul' (cadd' 1c q) m) ).
   ring. rewrite Hg.
   assert (H2 : two = cadd' 1c 1c) by (apply c_eq; csimp; ring). rewrite H2. ring.
 Qed.
@@ -198,4 +198,48 @@ Proof.
   { apply (Rmult_eq_reg_l (4 * c ^ 2)). rewrite H. field; auto.
     apply Rmult_integral_contrapositive_currified. lra. apply pow_nonzero; auto. }
   rewrite HY. rewrite Nat.even_succ, <- Nat.negb_even. destruct (Nat.even n); simpl negb; cbv iota; field; auto.
+Qed.
+
+(* ------------------------------------------------------------------ CPMG *)
+Lemma cpmg_y n z : (1 <= n)%nat -> let ph := z / (2 * INR n) in
+  cmul' (cadd' 1c (cexp' (2 * ph))) (dd_y (cpmg_times n) z) =
+  cneg' (cmul' (csub' 1c (mq (2 * ph) n)) (cmul' (csub' 1c (cexp' ph)) (csub' 1c (cexp' ph)))).
+Proof.
+  intros Hn ph. assert (Hn0 : INR n <> 0) by (apply not_0_INR; lia).
+  rewrite dd_y_pulse. unfold cpmg_times. rewrite fam_length. unfold fam. rewrite alt_fam.
+  rewrite (csumn_ext n _ (fun k => cmul' (cexp' ph) (mq (2 * ph) k))).
+  2:{ intros k _. unfold mq, ez.
+      replace (z * ((INR (1 + k) - 1 / 2) / INR n)) with (ph + INR k * (2 * ph)).
+      rewrite cexp_add. apply c_eq; csimp; ring.
+      unfold ph. rewrite plus_INR. simpl INR. field; auto. }
+  rewrite csumn_mul_l.
+  assert (He : cscal RO ((-1) ^ n) (ez z 1) = mq (2 * ph) n).
+  { unfold mq, ez. f_equal. f_equal. unfold ph. field; auto. }
+  rewrite He, cscal_mul.
+  assert (Hq : cexp' (2 * ph) = cmul' (cexp' ph) (cexp' ph)) by (rewrite <- cexp_add; f_equal; ring).
+  generalize (geom (2 * ph) n). rewrite Hq.
+  set (G := csumn' n (mq (2 * ph))). set (m := mq (2 * ph) n). set (p := cexp' ph).
+  set (two := cofr RO 2). intros Hg.
+  transitivity (cadd' (cadd' (cneg' (cadd' 1c (cmul' p p))) (cmul' (cmul' two p) (cmul' (cadd' 1c (cmul' p p)) G)))
+                      (cmul' (cadd' 1c (cmul' p p)) m)).
+  ring. rewrite Hg.
+  assert (H2 : two = cadd' 1c 1c) by (apply c_eq; csimp; ring). rewrite H2. ring.
+Qed.
+
+Lemma cpmg_closed n z : (1 <= n)%nat -> cos (z / (2 * INR n)) <> 0 -> dd_F (cpmg_times n) z = CPMG z (Z.of_nat n).
+Proof.
+  intros Hn Hc. assert (Hn0 : INR n <> 0) by (apply not_0_INR; lia).
+  pose proof (cpmg_y n z Hn) as H. cbv zeta in H.
+  apply (f_equal (cabs2 RO)) in H. rewrite cabs2_neg, !cabs2_mul, cabs2_1p, cabs2_1m, cabs2_1m_mq in H.
+  replace (2 * (z / (2 * INR n)) / 2) with (z / (2 * INR n)) in H by (field; auto).
+  replace (INR n * (2 * (z / (2 * INR n))) / 2) with (z / 2) in H by (field; auto).
+  unfold dd_F, CPMG. rewrite Zeven_of_nat, IZR_of_nat.
+  replace (z / 4 / INR n) with (z / (2 * INR n) / 2) by (field; auto).
+  replace (z / 2 / INR n) with (z / (2 * INR n)) by (field; auto).
+  set (c := cos (z / (2 * INR n))) in *. set (s := sin (z / (2 * INR n) / 2)) in *.
+  set (Y := cabs2 RO (dd_y (cpmg_times n) z)) in *.
+  assert (HY : Y = (if Nat.even n then 4 * sin (z / 2) ^ 2 else 4 * cos (z / 2) ^ 2) * (4 * s ^ 4) / c ^ 2).
+  { apply (Rmult_eq_reg_l (4 * c ^ 2)). rewrite H. field; auto.
+    apply Rmult_integral_contrapositive_currified. lra. apply pow_nonzero; auto. }
+  rewrite HY. destruct (Nat.even n); field; auto.
 Qed.
